@@ -128,11 +128,15 @@ text=("Model of Glob (component loop, literal fast path, directory scan with the
         text=("Proved: under every schedule of the protocol model redirections are popped in push order (k-th body to k-th operator); for a quoted "
               "delimiter the reader model returns every body whose lines differ from the delimiter byte for byte (empty first line included), recognises "
               "the tab-indented delimiter for <<-, stops right after it, and reports a missing delimiter as an error. The reader model is tied to "
-              "lexHeredoc by correspondence (body, delimiter line, unread rest, error) on random literal here-documents. NOT proved: expanding bodies "
-              "and delimiter quote removal; decided by the generator-driven check (expected operator, body, delimiter line, quoting per here-document "
+              "lexHeredoc by correspondence (body, delimiter line, unread rest, error) on random literal here-documents. For an unquoted delimiter (bodies "
+              "without $ and backquote; Lex/HeredocExp.v, same correspondence): logical lines -- physical lines joined by backslash-newline -- that differ from the "
+              "delimiter go to the body with the continuations removed and every other backslash pair kept, the first logical line equal to the delimiter ends it "
+              "(a continued physical line that spells it does not), a missing delimiter is an error. Quote removal of the delimiter word (Lex/DelimUnquote.v): for "
+              "every word of literal quotings, nested ones included, the delimiter is the text and the word counts as quoted; a plain literal does not. NOT proved: "
+              "$ and backquote expansions inside bodies; decided by the generator-driven check (expected operator, body, delimiter line, quoting per here-document "
               "in source order, at every redirection site)."),
         note=BASE_NOTE + "Backslash-newline inside an expanding body is a line continuation (removed), treated like the documented exclusion of C04.",
-        technique="Coq FIFO theorem (protocol LTS) and literal-body reader theorems with correspondence + generator-driven here-document check",
+        technique="Coq FIFO theorem (protocol LTS), literal- and expanding-body reader theorems and delimiter quote-removal theorem, with correspondence + generator-driven here-document check",
         design="5 C08"),
     "C10": dict(
         text=("Proved: the error slot's merge rule (translated concept: rank 0 read error, 1+position syntax errors, keep the minimum) keeps the read "
@@ -158,12 +162,18 @@ text=("Model of Glob (component loop, literal fast path, directory scan with the
         design="5 C15"),
     "C17": dict(
         text=("Proved: the stack of aliases being expanded holds pairwise distinct alias names, its depth is bounded by the table, a name is never "
-              "expanded inside its own expansion (termination for every table incl. cycles). NOT proved: equality with textual replacement; decided on "
+              "expanded inside its own expansion (termination for every table incl. cycles). Character stream under substitution (Lex/AliasStream.v, a model of "
+              "lexer.read / unread / subst replayed on every run against the events of the real lexer, hook VerifAliasHook): the text still to be read is the unread "
+              "parts of the alias values, innermost first, then the source; one read returns its first character whichever exhausted entries it drops; unread restores it; "
+              "a substitution makes the text to come the alias value (trailing blanks replaced by one blank) followed by what followed the word, also inside a value "
+              "(textual replacement, repeated); the guard refuses every name on the stack; any sequence of the three operations keeps the names distinct and the depth "
+              "within the table; the blank flag says exactly that the value ends in a blank and is pending once the value is read to its end. NOT proved: that the "
+              "tokens the lexer forms from that character stream are those of the replaced text at command position only (which words are examined); decided on "
               "every run: command structures rendered folded (alias names at command position) and unfolded (reference replacement incl. chains, "
               "cycles, chained trailing blanks) from the same random stream must parse to the same skeleton; alias names as arguments, quoted, "
               "as assignment words are never replaced."),
         note=BASE_NOTE + "The reference replacement is the generator's own implementation of the rule in the property text (validated against bash and dash while building).",
-        technique="Coq alias-stack theorems + folded/unfolded differential check on the implementation",
+        technique="Coq alias-stack and character-stream (textual replacement) theorems + event-replay correspondence with the lexer + folded/unfolded differential check",
         design="5 C17"),
     "C18": dict(
         text=("Proved: a writer failing before the whole output is accepted is reported by the buffered writer for every write sequence and buffering "
